@@ -37,6 +37,11 @@ SHAPES = [
     "lambda e: e.js.Select(lambda j: [cap for cap in j.trk if cap > G_CAP]) if cap > 0 else e.y",
     "lambda e, cap2=3: e.x + cap + cap2",
     "lambda e: [gcap for j in e.js] + [1 for gcap in e.js if gcap > cap]",
+    # the lambda's own parameter has the name of a global; an inner scope re-uses the name, then the parameter is used again
+    "lambda gcap: (gcap.js.Select(lambda gcap: gcap.pt), gcap, cap)",
+    "lambda gcap: ([gcap.pt for gcap in gcap.js], gcap.x + cap)",
+    "lambda gcap: (gcap.js.Select(lambda j: j.trk.Where(lambda gcap: gcap.pt > 1)).Count() + gcap.n, G_CAP)",
+    "lambda e: e.js.Select(lambda gcap: [gcap for gcap in gcap.trk] + [gcap]) if gcap > 0 else G_CAP",
 ]
 NSHAPES = len(SHAPES)
 G_CAP = 0
@@ -96,7 +101,7 @@ def uses(src_tree, env, v):
 
 def c04(code: int, alt: int, hist: int, v: Val, g: int, v2: int) -> str:
     """
-    pre: LO <= code < HI and 0 <= code < 20
+    pre: LO <= code < HI and 0 <= code < 24
     pre: 0 <= alt <= 6 and 0 <= hist <= 3
     pre: not isinstance(v, str) or len(v) <= 3
     pre: not isinstance(v, bytes) or len(v) <= 3
